@@ -192,6 +192,10 @@ class Skel:
                     if vid in self.lambdas:
                         return 'lambda:' + vid, None, args[1:]
                     return 'var:' + obj['referencedDecl'].get('name', ''), None, args[1:]
+            if opname == 'operator[]' and args:
+                obj = self.strip(args[0])
+                if obj is not None and obj.get('kind') == 'MemberExpr':
+                    return 'index:' + obj.get('name', ''), None, args[1:]
             if opname.startswith('operator') and opname != 'operator()':
                 did = c.get('referencedDecl', {}).get('id')
                 return opname, self.defs.get(self.canon(did)) if did else None, args
@@ -205,7 +209,7 @@ class Skel:
         if key is None:
             return None
         for pat in table:
-            if key == pat or (not key.startswith(('member:', 'lambda:', 'ctor:', 'var:')) and suffix_match(key, pat)) or \
+            if key == pat or (not key.startswith(('member:', 'lambda:', 'ctor:', 'var:', 'index:')) and suffix_match(key, pat)) or \
                     (pat.startswith('ctor:') and key.startswith('ctor:') and suffix_match(key[5:], pat[5:])):
                 return pat
         return None
@@ -412,7 +416,7 @@ class Skel:
                 lines.append(f'{ind}{self.request(cid)}();')
                 self.after_call(lines, ind, True)
         if d is not None and any(c.get('kind') == 'CXX11NoReturnAttr' for c in d.get('inner', [])) or \
-                (key and not key.startswith(('member:', 'lambda:', 'ctor:', 'var:')) and self.is_noreturn(key)):
+                (key and not key.startswith(('member:', 'lambda:', 'ctor:', 'var:', 'index:')) and self.is_noreturn(key)):
             lines.append(f'{ind}{self.throw_stmt()}   /* [[noreturn]] callee */')
         tp = self.match(self.spec.throws, key)
         if tp:
@@ -644,7 +648,13 @@ class Skel:
                     self.alias[d['id']] = t
                 self.maybe_dyn(d, self.targ(init[0]), lines, ind)
                 if e0 is not None and e0.get('kind') in ('CallExpr', 'CXXMemberCallExpr', 'CXXOperatorCallExpr'):
-                    key0, d0, _ = self.callee(e0)
+                    key0, d0, a0 = self.callee(e0)
+                    if self.match(self.spec.preds, key0) and ('optional<' in ty or ty in ('bool', 'const bool')):
+                        for a in e0.get('inner', []):
+                            self.events_in(a, lines, ind)
+                        v = self.call_effects(key0, d0, a0, lines, ind, want_value=True)
+                        (self.optvars if 'optional<' in ty else self.boolvars)[d['id']] = v
+                        continue
                     rk = self.callee_ret_kind(key0, d0) if (key0 and (key0.startswith('lambda:') or d0 is not None)) else None
                     if rk is None and d0 is not None and not self.match(self.spec.events, key0) and not self.match(self.spec.preds, key0) \
                             and self.contains_tracked(d0):
